@@ -598,10 +598,11 @@ class MetadataManager:
         among same-version files (possible after historical races) prefers the
         most recently modified.
         """
-        try:
-            all_files = self.storage.list_files(self.metadata_path)
-        except Exception:
-            return None
+        # A failing listing must propagate. Answering "no metadata files" for
+        # a listing that could not be performed made refresh() return None, and
+        # create_table() then RE-INITIALISED an existing table whose hint was
+        # lost (new uuid, committed data unreachable). "Unknown" is not "absent".
+        all_files = self.storage.list_files(self.metadata_path)
 
         best: Optional[Tuple[int, str]] = None
         best_mtime = -1.0
